@@ -375,7 +375,7 @@ theorem _root_.KafVerif.C02.max_footer_restore_leaves_gap :
 
 /-! ### non-vacuity -/
 
-instance (op : Op) : Decidable (NoRestart op) := by cases op <;> unfold NoRestart <;> infer_instance
+instance instDecNoRestartC02 (op : Op) : Decidable (NoRestart op) := by cases op <;> unfold NoRestart <;> infer_instance
 
 set_option maxRecDepth 100000 in
 /-- the hypotheses of `offsets_chain_after_loss` / `index_loss_restart_is_contiguous` hold for the orphan layout: the restore
